@@ -11,7 +11,11 @@ import (
 
 // C16 — system entities can only be changed from a system context.
 
-var c16Cfg = kit.WorldCfg{Stores: []kit.StoreCfg{{Name: "things", UniqueName: true, System: true}}}
+var c16Cfg = kit.WorldCfg{Stores: []kit.StoreCfg{
+	{Name: "things", UniqueName: true, System: true},
+	// deleted together with the thing they reference: a cascade must not lift the protection of a system entity
+	{Name: "deps", System: true, RefTo: "things", RefWiring: kit.WireConstraintDel},
+}}
 
 var c16Universe = kit.EntUniverse{
 	IDs:    []string{"s1", "s2", "s3", "s4"},
@@ -21,8 +25,20 @@ var c16Universe = kit.EntUniverse{
 	System: true,
 }
 
+var c16DepUniverse = kit.EntUniverse{
+	IDs:    []string{"d1", "d2", "d3"},
+	Names:  []string{"x"},
+	Notes:  []string{"", "n1"},
+	Refs:   []*string{kit.Sp("s1"), kit.Sp("s2"), kit.Sp("s3"), kit.Sp("s4"), nil},
+	Fields: []string{kit.FNote, kit.FRef, "isSystem"},
+	System: true,
+}
+
 func genC16(t *rapid.T) kit.History {
 	return kit.GenHistory(t, c16Cfg, 20, 3, true, 40, func(t *rapid.T, l string, m *kit.Model) kit.Op {
+		if rapid.IntRange(0, 3).Draw(t, l+"_dep") == 0 {
+			return kit.GenEntOpM(t, l, "deps", c16DepUniverse, m)
+		}
 		return kit.GenEntOpM(t, l, "things", c16Universe, m)
 	})
 }
@@ -38,9 +54,22 @@ func runC16(h kit.History) kit.Result {
 		ok := true
 		for _, op := range tx.Ops {
 			pre := trial.Clone()
-			if e, exists := pre.Ents["things"][op.ID]; exists && op.Spec != nil && op.Kind != "create" && e.IsSystem != op.Spec.IsSystem {
+			if e, exists := pre.Ents[op.Store][op.ID]; exists && op.Spec != nil && op.Kind != "create" && e.IsSystem != op.Spec.IsSystem {
 				flip = true
 				res.Classes = append(res.Classes, fmt.Sprintf("flip-attempt:system-ctx=%v:entity-system=%v", tx.System, e.IsSystem))
+			}
+			if op.Kind == "delete" && op.Store == "things" {
+				for _, did := range pre.Referrers("things", op.ID)["deps"] {
+					if pre.Ents["deps"][did].IsSystem {
+						res.Classes = append(res.Classes, fmt.Sprintf("cascade-onto-system-entity:system-ctx=%v", tx.System))
+					}
+				}
+			}
+			if op.Spec != nil && op.Spec.Migrate && op.Kind != "create" {
+				res.Classes = append(res.Classes, "update-with-migrate-flag")
+			}
+			if tx.DeriveSystemFirst {
+				res.Classes = append(res.Classes, "ordinary-ctx-after-deriving-system-ctx")
 			}
 			c := trial.Apply(op, tx.System)
 			if len(c) > 0 {
@@ -53,7 +82,7 @@ func runC16(h kit.History) kit.Result {
 				ok = false
 				break
 			}
-			if e, exists := pre.Ents["things"][op.ID]; exists && e.IsSystem && tx.System {
+			if e, exists := pre.Ents[op.Store][op.ID]; exists && e.IsSystem && tx.System {
 				res.Classes = append(res.Classes, "system-entity-changed-from-system-ctx:"+op.Kind)
 			}
 		}
@@ -69,7 +98,7 @@ func TestC16(t *testing.T) {
 	kit.Execute(t, kit.Spec[kit.History]{
 		ID:    "C16",
 		Level: "exploration",
-		Rule: "rapid draws histories (1-20 transactions, 1-3 operations, ~45% in a system mutate context) of create (IsSystem true/false), update and patch (payloads that also flip IsSystem) and delete over ids s1..s4 on a store with the system-entity enforcement constraint. " +
+		Rule: "rapid draws histories (1-20 transactions, 1-3 operations, ~45% in a system mutate context; a third of the ordinary ones first derive and discard a system context from their own context) of create (IsSystem true/false), update and patch (payloads that also flip IsSystem, a quarter with the Migrate flag) and delete over ids s1..s4 on a store with the system-entity enforcement constraint, plus a second protected store whose entities reference the first through a cascade-delete foreign key. " +
 			"The model fixes the flag at creation: an operation touching a system entity (or creating one) from an ordinary context must fail and leave the dump unchanged, every other operation must succeed, and after every transaction the stored flag of every entity equals its creation flag. " +
 			"Non-trivial history: a refusal followed by a committed transaction, or an update that tries to flip the flag. Distinct by hash of the history JSON.",
 		Gen: genC16, Run: runC16,
